@@ -10,6 +10,11 @@ CONSTANTS
   CdLab = 1
   CdSlack = {0}
   FIXED = TRUE
+  HistGrids = {}
+  HistLen = 1
+  Chains = {FALSE}
+  HistPickInit = 0
+  HistPickNext = 0
 INVARIANT InBounds
 INVARIANT SoExact
 INVARIANT CdExact
